@@ -351,7 +351,7 @@ SUBCHECKS = [
     Sub('geo_roundtrip', gen_geo, ev_geo, chunk=16, floor=1000, envs=24),
     Sub('grid_lattice', gen_grid, ev_grid, chunk=8, floor=1000, envs=24),
     Sub('standalone', gen_sa, ev_sa, chunk=8, floor=500, envs=1),
-    Sub('threads', _tg, _te, chunk=1, floor=3, poison=False, fresh=True),
+    Sub('threads', _tg, _te, chunk=1, floor=3, poison=False, fresh=True, timeout=3600),
 ]
 
 
